@@ -979,6 +979,8 @@ def OP_SET_FLAG(tape: Tape, stack: Stack, cache: dict) -> None:
     """
     size = int.from_bytes(tape.read(1), 'big')
     flag = tape.read(size)
+    if flag not in flags and size > 0 and int.from_bytes(flag, 'big') in flags:
+        flag = int.from_bytes(flag, 'big') # integer flags 0-255
     sert(flag in flags, 'OP_SET_FLAG unrecognized flag')
     tape.flags[flag] = flags[flag]
 
@@ -988,6 +990,8 @@ def OP_UNSET_FLAG(tape: Tape, stack: Stack, cache: dict) -> None:
     """
     size = int.from_bytes(tape.read(1), 'big')
     flag = tape.read(size)
+    if flag not in tape.flags and size > 0 and int.from_bytes(flag, 'big') in tape.flags:
+        flag = int.from_bytes(flag, 'big') # integer flags 0-255
     if flag in tape.flags:
         del tape.flags[flag]
 
@@ -1273,7 +1277,7 @@ def OP_LOOP(tape: Tape, stack: Stack, cache: dict) -> None:
 
     while bytes_to_bool(condition):
         sert(count < tape.callstack_limit, 'OP_LOOP limit exceeded')
-        run_tape(subtape, stack, cache)
+        run_tape(subtape, stack, cache, additional_flags=tape.flags)
         if subtape.returned:
             return
         subtape.reset_pointer()
@@ -2149,6 +2153,10 @@ def set_tape_flags(tape: Tape, additional_flags: dict = {}) -> Tape:
     """Sets flags included in flags_to_set and any additional_flags for
         the tape.
     """
+    if additional_flags is tape.flags:
+        # sub-tape sharing its parent's flags (OP_LOOP, OP_CALL): already configured
+        return tape
+    additional_flags = {**additional_flags}
     for key in flags:
         if type(key) in (str, int):
             tape.flags[key] = flags[key] if key in flags_to_set else False
